@@ -42,7 +42,35 @@ def gen_case(rng, tier, idx):
     if idx % 10 == 9:
         from ..runnerdrive import gen_runner_case
 
-        return gen_runner_case(rng, tier, profile="matching", style="aggressive")
+        c = gen_runner_case(rng, tier, profile="matching", style="aggressive",
+                            **({"n_spot": 2, "n_hft": 3, "with_index": False} if idx % 20 == 19 else {}))
+        if idx % 20 == 19:
+            # only high-frequency agents trade S0 (the normal agents, who give them their turns, trade S1), and order
+            # mistake shocks hit S0: the order an event rewrites is a high-frequency agent's
+            cfg = c["config"]
+            for k, v in cfg.items():
+                if isinstance(v, dict) and "program" in v and k != "H":
+                    v["markets"] = ["S1"]
+                    v["program"]["p_act"] = 1.0
+            cfg["H"]["markets"] = ["S0", "S1"]
+            cfg["H"]["program"]["p_act"] = 1.0
+            ss = [s_ for s_ in cfg["simulation"]["sessions"] if s_["withOrderPlacement"] and s_["withOrderExecution"]]
+            for s_ in ss:
+                s_["maxHighFrequencyOrders"] = max(s_.get("maxHighFrequencyOrders", 1), 2)
+                s_["highFrequencySubmitRate"] = 1.0
+                s_["maxNormalOrders"] = max(s_.get("maxNormalOrders", 1), 2)
+            for j, t in enumerate([0, 1, 2, 4]):
+                cfg["OMS%d" % j] = {"class": "OrderMistakeShock", "target": "S0", "triggerTime": t,
+                                    "priceChangeRate": rng.choice([-0.05, 0.05, -0.2]), "orderVolume": rng.choice([3, 7]),
+                                    "orderTimeLength": rng.choice([2, 7, 30])}
+                ss[0].setdefault("events", []).append("OMS%d" % j)
+        return c
+    if idx % 10 == 2:
+        from ..direct import gen_deep_auction_history
+
+        c = gen_deep_auction_history(rng, tier)
+        c["drive"] = "direct"
+        return c
     if idx % 10 == 3:
         from ..direct import gen_both_sides_market_history
 
